@@ -23,6 +23,7 @@ import (
 	"fmt"
 	"io"
 	"net"
+	"os"
 	"runtime"
 	"strconv"
 	"strings"
@@ -43,7 +44,7 @@ import (
 
 type PktSpec struct{ ID, Size int }
 
-type InItem struct{ Kind, ID, Size int } // Kind 0 frame, 1 garbage (bad checksum), 2 EOF, 3 RST, 4 truncated frame then FIN, 5 header with an over-limit length, 6 a frame written in two halves with a pause longer than the read time-out in between (the second half begins with a complete, valid frame)
+type InItem struct{ Kind, ID, Size int } // Kind 0 frame, 1 garbage (bad checksum), 2 EOF, 3 RST, 4 truncated frame then FIN, 5 header with an over-limit length, 7 a frame written (after idling 2/3 of the read time-out) in ONE write together with the first half of the next frame, 8 that next frame, whose second half follows after another 2/3 of the time-out, 6 a frame written in two halves with a pause longer than the read time-out in between (the second half begins with a complete, valid frame)
 
 type Dir struct{ Op, A, B int }
 
@@ -150,6 +151,10 @@ type Cfg struct {
 	LateInput   int // free mode: the last LateInput items of Input are written only after the close began
 	WaitInput   int // free mode: the closers start only after the peer has written all of its input (the peer is silent while we close)
 	SmallBuf    int // 64 KiB socket buffers on both ends (a backlog stays in the kernel send queue)
+	Transport   int // 0 loopback TCP, 1 unix domain socket
+	ViaServer   int // 1: the connection is accepted by a qnet.TcpServer and the endpoint comes from its backlog channel
+	GCAfter     int // free mode: after Close returned drop every reference to the endpoint and force two GC cycles before the (late) peer starts reading
+	Chunked     int // free mode: the peer writes its input as one byte stream cut into random chunks (frames share segments / span segments)
 }
 
 func (c Cfg) Sx() Sx {
@@ -176,7 +181,7 @@ func (c Cfg) Sx() Sx {
 	return List(Int(int64(c.Mode)), Int(int64(c.Codec)), Bool(c.Cipher), Int(int64(c.Ocap)), Int(int64(c.Icap)),
 		Int(int64(c.Ecap)), Bool(c.HasWriter), Bool(c.HasReader), ListOf(snd), ListOf(cls), ListOf(in),
 		Int(int64(c.PeerRead)), Int(int64(c.InConsumer)), Uint(c.Seed), ListOf(sc), Int(int64(c.CloseAfter)),
-		Int(int64(c.LateSend)), Ints(int64(c.FailAfter), int64(c.Immediate), int64(c.MaxProcs), int64(c.ReadTimeout), int64(c.LateInput), int64(c.WaitInput), int64(c.SmallBuf)))
+		Int(int64(c.LateSend)), Ints(int64(c.FailAfter), int64(c.Immediate), int64(c.MaxProcs), int64(c.ReadTimeout), int64(c.LateInput), int64(c.WaitInput), int64(c.SmallBuf), int64(c.Transport), int64(c.ViaServer), int64(c.GCAfter), int64(c.Chunked)))
 }
 
 func CfgOfSx(s Sx) Cfg {
@@ -211,6 +216,9 @@ func CfgOfSx(s Sx) Cfg {
 		}
 		if x.Len() > 6 {
 			c.WaitInput, c.SmallBuf = x.At(5).AsInt(), x.At(6).AsInt()
+		}
+		if x.Len() > 10 {
+			c.Transport, c.ViaServer, c.GCAfter, c.Chunked = x.At(7).AsInt(), x.At(8).AsInt(), x.At(9).AsInt(), x.At(10).AsInt()
 		}
 	}
 	return c
@@ -276,6 +284,18 @@ func encodeFrame(enc codec.Encoder, withCipher bool, p PktSpec) []byte {
 	return buf.Bytes()
 }
 
+// halfCloser: what the harness needs from its own end of the connection (TCP or unix socket)
+type halfCloser interface {
+	net.Conn
+	CloseWrite() error
+}
+
+func setLinger0(c net.Conn) {
+	if t, ok := c.(*net.TCPConn); ok {
+		t.SetLinger(0)
+	}
+}
+
 // failConn wraps the connection's socket: the first `ok` Write calls go through, every later one
 // fails without writing anything (an injected, deterministic write error).  It is deliberately
 // not a *net.TCPConn: TcpConn then closes it with Close() instead of CloseRead/CloseWrite.
@@ -328,7 +348,7 @@ type Sim struct {
 	inbound chan fatchoy.IPacket
 	errch   chan error
 
-	peer      *net.TCPConn
+	peer      halfCloser
 	peerBuf   bytes.Buffer
 	peerMu    sync.Mutex
 	peerEOF   atomic.Bool
@@ -358,9 +378,13 @@ type Sim struct {
 	parked        map[int64]bool // gated: goroutines parked inside connection code at the last quiescence
 	waited        bool           // finally() got past wg.Wait()
 	pumpAfterWait int            // pump events after that
-	noFin         int            // Terminated, no goroutine left, and the peer never saw end-of-stream
-	wakeSince     time.Time      // when the reader last got a reason to wake (input written / read side shut down)
-	desync        int            // gated: arrivals that the serialization protocol cannot explain
+	finalCounters []int64
+	finalState    int64
+	finalDone     bool
+	dropped       bool      // the endpoint was dropped and collected (GCAfter)
+	noFin         int       // Terminated, no goroutine left, and the peer never saw end-of-stream
+	wakeSince     time.Time // when the reader last got a reason to wake (input written / read side shut down)
+	desync        int       // gated: arrivals that the serialization protocol cannot explain
 	rng           *Rng
 }
 
@@ -474,7 +498,7 @@ func (sim *Sim) point(code, arg int) {
 }
 
 func (sim *Sim) hook(t *qnet.TcpConn, name string) {
-	if t != sim.conn {
+	if sim.dropped || t != sim.conn {
 		return
 	}
 	if c, ok := pointCodes[name]; ok {
@@ -656,6 +680,13 @@ func (sim *Sim) waitQuiet(d time.Duration) bool {
 	}
 }
 
+func (sim *Sim) connState() int64 {
+	if sim.dropped {
+		return sim.finalState
+	}
+	return int64(sim.conn.VerifState())
+}
+
 // peerParked: the harness's peer-side reader is parked in the network wait
 func (sim *Sim) peerParked() bool {
 	for _, g := range allStacks() {
@@ -823,6 +854,27 @@ func (sim *Sim) peerWriteItem(idx int, enc codec.Encoder) bool {
 		f := encodeFrame(enc, false, PktSpec{it.ID, it.Size + 8})
 		sim.peer.Write(f[:len(f)-3])
 		sim.peer.CloseWrite()
+	case 7, 8:
+		to := sim.cfg.ReadTimeout
+		if to <= 0 {
+			to = 60
+		}
+		pause := time.Duration(to) * time.Second * 2 / 3
+		t0 := time.Now()
+		time.Sleep(pause)
+		f := encodeFrame(enc, sim.cfg.Cipher, PktSpec{it.ID, it.Size})
+		if it.Kind == 7 && idx+1 < len(sim.cfg.Input) {
+			nx := sim.cfg.Input[idx+1]
+			g := encodeFrame(enc, sim.cfg.Cipher, PktSpec{nx.ID, nx.Size})
+			sim.peer.Write(append(append([]byte(nil), f...), g[:len(g)/2]...)) // A and the first half of B in ONE write
+		} else if it.Kind == 8 {
+			sim.peer.Write(f[len(f)/2:]) // the rest of B
+		} else {
+			sim.peer.Write(f)
+		}
+		if time.Since(t0) > time.Duration(to)*time.Second*9/10 {
+			sim.inconclusive("the harness itself paused longer than 0.9 x the read time-out")
+		}
 	case 6:
 		// outer frame: header announcing a body of junk(8) + an embedded valid frame + 6 more bytes
 		g := encodeFrame(enc, sim.cfg.Cipher, PktSpec{it.ID + 100000, it.Size})
@@ -844,7 +896,7 @@ func (sim *Sim) peerWriteItem(idx int, enc codec.Encoder) bool {
 		}
 		sim.peer.Write(f)
 	case 3:
-		sim.peer.SetLinger(0)
+		setLinger0(sim.peer)
 		sim.peer.Close()
 	}
 	sim.mu.Lock()
@@ -889,7 +941,7 @@ func (sim *Sim) noteInbound(p fatchoy.IPacket) {
 
 func (sim *Sim) inputSize(id int) int {
 	for _, it := range sim.cfg.Input {
-		if it.Kind == 0 && it.ID == id {
+		if (it.Kind == 0 || it.Kind == 7 || it.Kind == 8) && it.ID == id {
 			return it.Size
 		}
 	}
@@ -964,54 +1016,108 @@ func run(cfg Cfg) (Sx, *Sim) {
 	}
 	var inOracle []Sx
 	for _, it := range cfg.Input {
-		if it.Kind == 0 {
+		if it.Kind == 0 || it.Kind == 7 || it.Kind == 8 {
 			n, _ := frameInfo(enc, cfg.Cipher, PktSpec{it.ID, it.Size})
 			inOracle = append(inOracle, List(Int(int64(it.ID)), Int(int64(n))))
 		}
 	}
 
-	ln, err := net.Listen("tcp", "127.0.0.1:0")
-	if err != nil {
-		return List(Int(-1)), nil
-	}
-	defer ln.Close()
-	type acc struct {
-		c   net.Conn
-		err error
-	}
-	ach := make(chan acc, 1)
-	go func() { c, e := ln.Accept(); ach <- acc{c, e} }()
-	pc, err := net.DialTimeout("tcp", ln.Addr().String(), 5*time.Second)
-	if err != nil {
-		return List(Int(-1)), nil
-	}
-	a := <-ach
-	if a.err != nil {
-		pc.Close()
-		return List(Int(-1)), nil
-	}
-	sim.peer = pc.(*net.TCPConn)
-	srv := a.c.(*net.TCPConn)
-	defer func() { // no TIME_WAIT pile-up: thousands of scenarios per run
-		sim.peer.SetLinger(0)
-		sim.peer.Close()
-		srv.SetLinger(0)
-		srv.Close()
-	}()
-
+	// ---- the connection: transport (loopback TCP / unix socket), who accepts it (the harness / a
+	// qnet.TcpServer), optionally wrapped in a net.Conn that is not a *net.TCPConn
 	sim.inbound = make(chan fatchoy.IPacket, cfg.Icap)
 	if cfg.Ecap >= 0 {
 		sim.errch = make(chan error, cfg.Ecap)
 	}
+	network, addr := "tcp", "127.0.0.1:0"
+	if cfg.Transport == 1 {
+		dir, err := os.MkdirTemp("", "connsim")
+		if err != nil {
+			return List(Int(-1)), nil
+		}
+		defer os.RemoveAll(dir)
+		network, addr = "unix", dir+"/s"
+	}
+	var srv net.Conn
+	var server *qnet.TcpServer
+	if cfg.ViaServer == 1 {
+		server = qnet.NewTcpServer(enc, sim.inbound, cfg.Ocap)
+		addr = ""
+		for try := 0; try < 20 && addr == ""; try++ {
+			a := freeAddr()
+			if server.Listen(a) == nil {
+				addr = a
+			}
+		}
+		if addr == "" {
+			return List(Int(-1)), nil
+		}
+		sim.errch = server.ErrorChan()
+		pc, err := net.DialTimeout("tcp", addr, 5*time.Second)
+		if err != nil {
+			return List(Int(-1)), nil
+		}
+		sim.peer = pc.(*net.TCPConn)
+		select {
+		case ep := <-server.BacklogChan():
+			sim.conn = ep.(*qnet.TcpConn)
+			srv = ep.RawConn()
+		case <-time.After(5 * time.Second):
+			pc.Close()
+			return List(Int(-1)), nil
+		}
+	} else {
+		ln, err := net.Listen(network, addr)
+		if err != nil {
+			return List(Int(-1)), nil
+		}
+		defer ln.Close()
+		type acc struct {
+			c   net.Conn
+			err error
+		}
+		ach := make(chan acc, 1)
+		go func() { c, e := ln.Accept(); ach <- acc{c, e} }()
+		pc, err := net.DialTimeout(network, ln.Addr().String(), 5*time.Second)
+		if err != nil {
+			return List(Int(-1)), nil
+		}
+		a := <-ach
+		if a.err != nil {
+			pc.Close()
+			return List(Int(-1)), nil
+		}
+		sim.peer = pc.(halfCloser)
+		srv = a.c
+	}
+	rawSrv := srv
+	defer func() { // no TIME_WAIT pile-up: thousands of scenarios per run
+		setLinger0(sim.peer)
+		sim.peer.Close()
+		if cfg.GCAfter == 0 {
+			setLinger0(rawSrv)
+			rawSrv.Close()
+		}
+	}()
 	if cfg.SmallBuf == 1 {
-		srv.SetWriteBuffer(64 * 1024)
-		sim.peer.SetReadBuffer(64 * 1024)
+		if t, ok := srv.(*net.TCPConn); ok {
+			t.SetWriteBuffer(64 * 1024)
+		}
+		if t, ok := sim.peer.(*net.TCPConn); ok {
+			t.SetReadBuffer(64 * 1024)
+		}
 	}
-	var sock net.Conn = srv
-	if cfg.FailAfter >= 0 {
-		sock = &failConn{Conn: srv, ok: int32(cfg.FailAfter)}
+	if sim.conn == nil {
+		var sock net.Conn = srv
+		if cfg.FailAfter >= 0 {
+			sock = &failConn{Conn: srv, ok: int32(cfg.FailAfter)}
+		} else if cfg.FailAfter == -2 { // wrapped (as a TLS / metering layer would), never failing
+			sock = &failConn{Conn: srv, ok: 1 << 30}
+		}
+		sim.conn = qnet.NewTcpConn(fatchoy.NodeID(0x010001), sock, enc, sim.errch, sim.inbound, cfg.Ocap, nil)
 	}
-	sim.conn = qnet.NewTcpConn(fatchoy.NodeID(0x010001), sock, enc, sim.errch, sim.inbound, cfg.Ocap, nil)
+	if cfg.GCAfter == 1 {
+		srv, rawSrv = nil, nil // the endpoint will be the only owner of the socket
+	}
 	if cfg.Cipher {
 		sim.conn.SetEncryptPair(newCryptor(), newCryptor())
 	}
@@ -1051,7 +1157,7 @@ waitEOF:
 		}
 		// evidence, not a timer: the connection is Terminated, none of its goroutines is left and
 		// the peer's reader is parked in the network wait (nothing more is coming, not even a FIN)
-		if sim.conn.VerifState() == 4 && !sim.pumpsAlive() && sim.peerParked() {
+		if sim.connState() == 4 && !sim.pumpsAlive() && sim.peerParked() {
 			seen++
 			if seen >= 3 {
 				sim.noFin = 1
@@ -1077,7 +1183,7 @@ waitEOF:
 	for sim.takeErr() {
 	}
 	// late sends: must be refused
-	for k := 0; k < cfg.LateSend; k++ {
+	for k := 0; k < cfg.LateSend && !sim.dropped; k++ {
 		code := 0
 		p, _ := Catch(func() {
 			switch sim.conn.SendPacket(mkPacket(PktSpec{900000 + k, 8})) {
@@ -1158,8 +1264,15 @@ func (sim *Sim) observed(enc codec.Encoder, oracle, inOracle []Sx) Sx {
 	}
 	ninc := len(sim.inconcl)
 	sim.mu.Unlock()
-	st := sim.conn.Stats()
-	counters := Ints(st.Get(qnet.StatPacketsSent), st.Get(qnet.StatBytesSent), st.Get(qnet.StatPacketsRecv), st.Get(qnet.StatBytesRecv))
+	var counters Sx
+	state, doneClosed := int64(0), false
+	if sim.dropped {
+		counters, state, doneClosed = Ints(sim.finalCounters...), sim.finalState, sim.finalDone
+	} else {
+		st := sim.conn.Stats()
+		counters = Ints(st.Get(qnet.StatPacketsSent), st.Get(qnet.StatBytesSent), st.Get(qnet.StatPacketsRecv), st.Get(qnet.StatBytesRecv))
+		state, doneClosed = int64(sim.conn.VerifState()), sim.conn.VerifDoneClosed()
+	}
 	return List(
 		ListOf(oracle),   // 0 (id framesize ok)
 		ListOf(inOracle), // 1 (id framesize)
@@ -1172,8 +1285,8 @@ func (sim *Sim) observed(enc codec.Encoder, oracle, inOracle []Sx) Sx {
 		Ints(int64(sim.badEndpoint), int64(sim.foreignIn)), // 8
 		Ints(int64(sim.errGot), int64(sim.errForeign)),     // 9
 		Ints(cres...), // 10
-		Ints(int64(atomic.LoadInt32(&sim.panics)), int64(sim.conn.VerifState()), b2i(sim.conn.VerifDoneClosed())), // 11
-		Ints(int64(ninc), int64(sim.stuck), int64(sim.pumpAfterWait)),                                             // 12 inconclusive observations, stuck state established, pump events after wg.Wait returned
+		Ints(int64(atomic.LoadInt32(&sim.panics)), state, b2i(doneClosed)), // 11
+		Ints(int64(ninc), int64(sim.stuck), int64(sim.pumpAfterWait)),      // 12 inconclusive observations, stuck state established, pump events after wg.Wait returned
 		Ints(late...), // 13
 	)
 }
